@@ -28,7 +28,8 @@ CHECKS = {
     "C17": ("exploration",
             "exhaustive runtime enumeration with arithmetic oracle, under ASan+UBSan",
             "All 1,843,199 period lengths, all sign-consistent int8 (hour,minute) pairs, all int16 minute counts, all "
-            "increment15Minutes start values and every byte value for every increment helper are executed; small finite domains, "
+            "increment15Minutes start values and every byte value for every increment helper (periods of either sign, other fields set; "
+            "dates incl. days the month does not have) are executed; small finite domains, "
             "enumerated completely in both tiers.",
             BASE_NOTE + " incrementMod/incrementModOffset come from the shim (AceCommon is not vendored).", "3/C17"),
 }
@@ -57,7 +58,7 @@ CHECKS.update({
     "C10": ("exploration",
             "monitored instantiation of the real lookup template (bounds-recording broker, step-counting comparator) + stock code under ASan+UBSan, vs linear-scan oracle",
             "Small-scope exhaustive: registries of every size 0..16 (quick) / 0..40 (thorough) cut from both shipped registries, "
-            "sorted, shuffled and reversed, plus both full registries; every present name and absent names in every gap, ids, "
+            "sorted, shuffled and reversed, with extreme ids and with two names for one id, plus both full registries; every present name and absent names in every gap, ids, "
             "indices. Out-of-registry reads are observed at the access, termination is decided by a logical step bound.",
             BASE_NOTE, "3/C10"),
     "C11": ("exploration",
@@ -71,7 +72,8 @@ CHECKS.update({
             "runtime save/restore and equality monitors over all zones, manual-offset grid and all type bytes, under ASan+UBSan",
             "Every zone of both registries (plain and managed), a grid of manual zones with int16 extremes, error/default zones "
             "and all 256 serialised type bytes go through save -> restore (full and partial registries, a second manager); operator== is compared "
-            "with the stated relation on all pairs of a pool; manual zones are asked at 16 instants incl. the ends of the int32 range.",
+            "with the stated relation on all pairs of a pool; manual zones are asked at 16 instants incl. the ends of the int32 range; saved zones are "
+            "restored through managers with fewer processor slots than zones in use and asked in random orders.",
             BASE_NOTE, "3/C16"),
 })
 
@@ -121,7 +123,8 @@ CHECKS.update({
             "3 (quick) / 4 (thorough) over argument classes, per-zone per-year transition-pool high-water marks against the "
             "recorded sizes (shipped tables, and tables compiled afresh from the shipped lines, tzdata 2025b, data/features.zi and seed-derived "
             "subsets with other year ranges, incl. the year before the first and after the last compiled year), the basic cache-overflow "
-            "hook, abbreviation builders on exact-size heap buffers, registries of size 0 and 1, and the C08 histories, under ASan+UBSan "
+            "hook, abbreviation builders on exact-size heap buffers, registries of size 0 and 1, large unsorted registries (step-counted lookups), "
+            "SystemClock/SystemClockLoop call histories from arbitrary counter values (logical step bound on counter reads) and the C08 histories, under ASan+UBSan "
             "at -O1 and (a slice) at -O0. A clean run is not memory safety; the int32-range-edge overflows and the compiler's buffer "
             "estimate for non-default year ranges are recorded as known findings by call site / mechanism.",
             BASE_NOTE + " UBSan groups: undefined (incl. bounds, signed overflow, null, shift); implicit-conversion and unsigned overflow are deliberately off.", "3/C09"),
